@@ -4,8 +4,8 @@
     selection at the head of thread.apply are written in the shape of the Go code; every slice index and
     pointer dereference the Go code performs is explicit here and yields [IPanic] when Go would panic.
 
-    Not represented: a nil element inside tx.Inputs (a malformed Go value no parser or builder of the
-    library produces), WithState, the debugger (debugging is C19). *)
+    An element of tx.Inputs may be nil ([None]): validate rejects the call when the requested one is.
+    Not represented: WithState, the debugger (debugging is C19). *)
 From Coq Require Import List NArith ZArith Bool.
 From Coq Require Import Strings.Byte.
 From GoBT Require Import lib.Bytes model.ScriptNum model.Interp.
@@ -13,7 +13,7 @@ Import ListNotations.
 Local Open Scope Z_scope.
 
 Record o_input := mkOIn { oi_unlock : option bytes; oi_seq : Z }.
-Record o_tx := mkOTx { ot_ins : list o_input; ot_lock : Z; ot_version : Z }.
+Record o_tx := mkOTx { ot_ins : list (option o_input); ot_lock : Z; ot_version : Z }.   (* None: a nil *Input *)
 
 Record exec_opts := mkOpts {
   eo_lock : option bytes;            (* WithScripts: lockingScript *)
@@ -36,12 +36,24 @@ Definition is_some {A} (o : option A) : bool := match o with Some _ => true | No
 
 Inductive vres := VRok | VRerr | VRpanic.
 
-(** execOpts.validate (thread.go:83-130), in source order *)
+(** dereferencing a possibly nil *Input *)
+Definition deref {A} (x : ires (option A)) : ires A :=
+  match x with IOk (Some a) => IOk a | _ => IPanic end.
+
+(** execOpts.validate (thread.go), in source order *)
 Definition validate (o : exec_opts) : vres :=
   if (eo_idx o <? 0) ||
      match eo_tx o with Some t => eo_idx o >? Z.of_nat (length (ot_ins t)) - 1 | None => false end
   then VRerr
   else
+  (* o.tx != nil && o.tx.Inputs[o.inputIdx] == nil: the requested input must be there *)
+  match (match eo_tx o with
+         | None => IOk false
+         | Some t => match index (ot_ins t) (eo_idx o) with IOk None => IOk true | IOk (Some _) => IOk false | IPanic => IPanic end
+         end) with
+  | IPanic => VRpanic
+  | IOk true => VRerr
+  | IOk false =>
     let output_has_lock := match eo_prev o with Some (Some _) => true | _ => false end in
     (* txHasUnlockingScript := tx != nil && Inputs != nil && len(Inputs) > 0 && Inputs[idx] != nil
                                && Inputs[idx].UnlockingScript != nil  (short-circuit, left to right) *)
@@ -53,7 +65,8 @@ Definition validate (o : exec_opts) : vres :=
           | [] => IOk false
           | _ => match index (ot_ins t) (eo_idx o) with
                  | IPanic => IPanic
-                 | IOk i => IOk (is_some (oi_unlock i))
+                 | IOk None => IOk false                       (* Inputs[idx] != nil is tested first *)
+                 | IOk (Some i) => IOk (is_some (oi_unlock i))
                  end
           end
       end in
@@ -67,7 +80,8 @@ Definition validate (o : exec_opts) : vres :=
           | Some l, Some (Some pl) => if bytes_eqb l pl then VRok else VRerr
           | _, _ => VRok
           end
-    end.
+    end
+  end.
 
 (** the second comparison of validate: unlocking script against the input's; separated because it indexes again *)
 Definition validate_unlock (o : exec_opts) : vres :=
@@ -78,10 +92,11 @@ Definition validate_unlock (o : exec_opts) : vres :=
       | _ =>
           match index (ot_ins t) (eo_idx o) with
           | IPanic => VRpanic
-          | IOk i => match oi_unlock i with
-                     | Some iu => if bytes_eqb u iu then VRok else VRerr
-                     | None => VRok
-                     end
+          | IOk None => VRok
+          | IOk (Some i) => match oi_unlock i with
+                            | Some iu => if bytes_eqb u iu then VRok else VRerr
+                            | None => VRok
+                            end
           end
       end
   | _, _ => VRok
@@ -104,7 +119,7 @@ Definition apply_opts (o : exec_opts) : ares :=
         | Some u => IOk (Some u)
         | None => match eo_tx o with
                   | None => IPanic
-                  | Some t => match index (ot_ins t) (eo_idx o) with IOk i => IOk (oi_unlock i) | IPanic => IPanic end
+                  | Some t => match deref (index (ot_ins t) (eo_idx o)) with IOk i => IOk (oi_unlock i) | IPanic => IPanic end
                   end
         end in
       (* opts.lockingScript == nil  =>  opts.previousTxOut.LockingScript *)
@@ -121,7 +136,7 @@ Definition apply_opts (o : exec_opts) : ares :=
           let fields : ires (Z * Z * Z) :=
             match eo_tx o with
             | None => IOk (0, 0, 0)
-            | Some t => match index (ot_ins t) (eo_idx o) with
+            | Some t => match deref (index (ot_ins t) (eo_idx o)) with
                         | IOk i => IOk (ot_lock t, ot_version t, oi_seq i)
                         | IPanic => IPanic
                         end
